@@ -39,7 +39,7 @@ Definition attr_ok (n : Z) (h : heap) (a : attr) : Prop :=
       forall k sv, lookup k m = Some sv ->
                    match sv with
                    | SVec id => 1 < asz a /\ exists c, nth_error h id = Some c /\ rowlen a (cv c) /\ ck c = aty a /\ fixed c
-                   | SScal _ => asz a = 1
+                   | SScal c => asz a = 1 /\ store (aty a) c = c
                    end
   end.
 
@@ -186,7 +186,8 @@ Proof.
   destruct (ast at_) as [m|ne stamp rows] eqn:St.
   - destruct (sparse_validate (aty at_) (asz at_) v) as [e|[isv l]] eqn:V; [exact Hi|].
     apply sparse_validate_inr in V; [|exact A1]. destruct V as [V0 [V1 [V2 V3]]].
-    destruct isv; simpl.
+    unfold sparse_vec_uses_attr_dtype, sparse_scal_converted.
+    destruct isv; destruct (existsb (overflows (aty at_)) l); try exact Hi; simpl.
     + apply inv_with_heap_attr; [exact Hi|apply heap_ext_app|].
       split; [exact A1|]. split.
       * simpl. destruct (adef at_) as [c|id]; [exact I|]. destruct A2 as [L [c [Hc Hr]]]. split; [exact L|].
@@ -194,7 +195,7 @@ Proof.
       * simpl. destruct A3 as [ND A3]. split; [now apply NoDup_upsert|].
         intros k sv. rewrite lookup_upsert. destruct (k =? key).
         -- intros E. inversion E; subst. split; [lia|]. eexists. split; [apply nth_error_app_new|].
-           unfold rowlen, sparse_vec_uses_attr_dtype. simpl. rewrite map_length. split; [lia|]. split; [reflexivity|].
+           unfold rowlen. simpl. rewrite map_length. split; [lia|]. split; [reflexivity|].
            unfold fixed. simpl. apply Forall_forall. intros v0 Hv. apply in_map_iff in Hv. destruct Hv as [u [<- _]].
            apply store_idem.
         -- intros Hk. specialize (A3 k sv Hk). destruct sv as [c|id]; [exact A3|].
@@ -203,12 +204,13 @@ Proof.
     + apply inv_with_attr; [exact Hi|]. split; [exact A1|]. split; [exact A2|].
       simpl. destruct A3 as [ND A3]. split; [now apply NoDup_upsert|].
       intros k sv. rewrite lookup_upsert. destruct (k =? key).
-      * intros E. inversion E; subst. lia.
+      * intros E. inversion E; subst. split; [lia|apply store_idem].
       * apply A3.
   - destruct (dense_oob key ne); [exact Hi|].
     destruct (dense_validate (aty at_) (asz at_) v) as [e|[isv l]] eqn:V; [exact Hi|].
     rewrite <- validate_same in V.
     apply sparse_validate_inr in V; [|exact A1]. destruct V as [V0 [V1 [V2 V3]]].
+    destruct (existsb (overflows (aty at_)) l); [exact Hi|].
     simpl. apply inv_with_attr; [exact Hi|]. split; [exact A1|]. split; [exact A2|].
     simpl. destruct A3 as [B1 [B2 B3]]. split; [exact B1|]. split; [rewrite length_upd; exact B2|].
     apply Forall_upd; [exact B3|]. unfold rowlen. simpl. destruct isv.
@@ -313,6 +315,7 @@ Proof.
   intros Hi. unfold do_update. pose proof (inv_get s a key Hi) as Hg.
   destruct (do_get s a key) as [s1 w]. simpl in Hg. destruct w; try exact Hg. destruct isvec; [|exact Hg].
   destruct ((c <? 0) || (c >=? Z.of_nat (length row))); [exact Hg|].
+  destruct (match lookup a (attrs s) with Some at_ => overflows (aty at_) x | None => false end); [exact Hg|].
   destruct (nth_error (refs s1) (length (refs s))) as [rf|]; [|exact Hg]. apply (inv_mut_ref s1 rf c x Hg).
 Qed.
 
